@@ -73,7 +73,8 @@ class ServeHarness:
         _patch_accept()
         self.config.bind = ["%s:0" % host]
         self.sockets = self.config.create_sockets()
-        sock = self.sockets.insecure_sockets[0]
+        sock = (self.sockets.secure_sockets or self.sockets.insecure_sockets)[0]
+        self.listen_sock = sock
         self.port = sock.getsockname()[1]
         self.host = host
         _accept_hooks[self.port] = self.trace
@@ -141,7 +142,7 @@ class ServeHarness:
 
                 from hypercorn.trio.run import worker_serve
 
-                for s in self.sockets.insecure_sockets:
+                for s in self.sockets.insecure_sockets + self.sockets.secure_sockets:
                     s.listen(self.config.backlog)
 
                 async def main():
@@ -167,7 +168,7 @@ class ServeHarness:
         _accept_hooks.pop(self.port, None)
         self.stop.set()
         self.done.wait(3.0)
-        for s in (self.sockets.insecure_sockets if self.sockets else []):
+        for s in ((self.sockets.insecure_sockets + self.sockets.secure_sockets) if self.sockets else []):
             try:
                 s.close()
             except Exception:
